@@ -6,7 +6,12 @@ PROPS_MODULE = "Q1t.Props.C04"
 SPEC = {
     "tables": [],
     "props_module": PROPS_MODULE,
-    "required": [],
+    "required": ["bit_permutation_spec", "lead_route_prim", "default_route", "lead_route_term", "apply_eq_matrix",
+                 "composite_acts_as_sequence", "embed_full_register",
+                 "apply_gate_slice_eq_embed", "apply_gate_mat_slice_eq_embed", "mat_route_columnwise",
+                 "place_step_eq_embed", "apply_gate_eq_embed", "conditional_eq_unconditional_on_selected",
+                 "composite_matrix_eq_product", "loop_matrix_eq_pow", "complex_is_model",
+                 "apply_gate_slice_eq_embed_complex"],
     "drivers": ["drv_c04"],
     "harness_bin": "c04",
     "eq": vlib.hexfloat_eq(1e-12),
